@@ -32,6 +32,17 @@ CHECKS = {
         'DESIGN.md 3/C14'),
 }
 
+CHECKS['C15'] = (
+    'exhaustive enumeration of amplifier-band profile assignments to the OMS of micro topologies + of bitmap-extent sets '
+    'for align_grids, against an independent band-intersection / graph-walk model',
+    'Every assignment (quick: deviation-bounded, thorough: full product on P2/P3) of 8 amplifier band profiles to the OMS '
+    'of P2/P3/triangle networks is designed with the real designed_network and passed to build_oms_list; partition, '
+    'ROADM-to-ROADM runs, mutual reverse pairing, common slot range and the exact FREE/UNUSABLE set are compared with an '
+    'independent model. align_grids is run on every 2-/3-set of bitmaps over a grid of extents with pre-existing marks.',
+    'Band edges are on the 6.25 GHz grid (true for the shipped multiband library); amplifier bands are read from the built '
+    'elements; topologies have <= 3 ROADM sites.',
+    'DESIGN.md 3/C15')
+
 ALL = [f'C{i:02d}' for i in range(1, 21)]
 NOT_BUILT_REASON = 'check not built yet in this round (planned, see DESIGN.md section 3); not claimed until it runs'
 
